@@ -114,6 +114,8 @@ def generate(prop, rng, tier):
                 if rng.random() < 0.2:
                     plan.append('land')
             ops.append({'op': 'poisson', 'rate': rate, 'interval': L if scalar else [t0, t0 + L],
+                        'ity': rng.choice(['float', 'float', 'npfloat', 'int', 'np0d']) if scalar else
+                        rng.choice(['list', 'list', 'tuple', 'arr']),
                         'plan': plan, 'dseed': rng.randrange(1 << 30),
                         'twin': rng.random() < 0.3})
         elif r < 0.75:
@@ -131,7 +133,8 @@ def generate(prop, rng, tier):
         else:
             ntr = rng.randint(1, 5)
             trains = [gen.gen_spikes(rng, wp, nmax=12) if rng.random() < 0.85 else [] for _k in range(ntr)]
-            frac = rng.choice([1.0, 0.5, 1.0 / 3, 1.0 / 7, 0.3, 1.0 / 64, 0.25, 0.9, 0.6])
+            frac = rng.choice([1.0, 0.5, 1.0 / 3, 1.0 / 7, 0.3, 1.0 / 64, 0.25, 0.9, 0.6,
+                               1.0 / rng.randint(1, 120), 1.0 / rng.randint(1, 120), 0.01 + 0.99 * rng.random()])
             ops.append({'op': 'psth', 'trains': trains, 'bin': frac * T,
                         'use': [rng.randrange(16) for _k in range(rng.choice([0, 0, 1]))]})
     return {'swarm': {'wp': wp, 'tier': tier}, 'init': {}, 'ops': ops, 'faults': {}}
@@ -173,7 +176,13 @@ def _poisson(spk, rec, op, fired, made):
         st = None
         with captured_stdout():
             try:
-                st = spk.generate_poisson_spikes(op['rate'], iv if not isinstance(iv, list) else list(iv))
+                ity = op.get('ity', 'list')
+                if isinstance(iv, list):
+                    arg = tuple(iv) if ity == 'tuple' else np.array(iv, dtype=float) if ity == 'arr' else list(iv)
+                else:
+                    arg = np.float64(iv) if ity == 'npfloat' else np.array(float(iv)) if ity == 'np0d' else \
+                        int(iv) if (ity == 'int' and float(iv) == int(iv)) else float(iv)
+                st = spk.generate_poisson_spikes(op['rate'], arg)
             except DrawBudgetExceeded:
                 status = 'budget'
             except Exception as ex:
